@@ -18,6 +18,7 @@ package affiliation
 
 import (
 	"go/ast"
+	"go/token"
 	"go/types"
 	"strings"
 
@@ -95,12 +96,18 @@ func (a *Affiliation) computeTriggersForCastingSites(pass *analysishelper.Enhanc
 
 		// identify sites of explicit or implicit casts
 		for _, decl := range file.Decls {
+			// The casting sites are in function declarations and in the initializers of package-level
+			// variables, e.g., `var G I = &S{}`. Note that `f` is nil for the latter; it is only needed
+			// for return statements, which can appear in an initializer only inside of a function
+			// literal, and those are skipped below.
 			f, ok := decl.(*ast.FuncDecl)
 			if !ok {
-				continue
+				if g, ok := decl.(*ast.GenDecl); !ok || g.Tok != token.VAR {
+					continue
+				}
 			}
 
-			ast.Inspect(f, func(n ast.Node) bool {
+			ast.Inspect(decl, func(n ast.Node) bool {
 				switch node := n.(type) {
 				case *ast.AssignStmt:
 					// special case of n-to-1 assignment from a function with multiple returns: e.g., i1, i2 = foo(), where foo() return s1, s2
